@@ -290,10 +290,10 @@ fn op_strategy(tier: Tier) -> BoxedStrategy<Op> {
     let n = prop_oneof![
         1 => Just(0u32),
         4 => 1u32..=130,
-        2 => crate::gen::select(vec![63u32, 64, 65, 127, 128, 129, 1023, 1024, 1025, 1088, 2048]),
+        3 => crate::gen::select(vec![1u32, 16, 31, 32, 33, 63, 64, 65, 96, 127, 128, 129, 192, 1023, 1024, 1025, 1088, 2048]),
         3 => 0u32..=maxn,
         // long reads: many iterations of the widest xof_many loop in one call
-        1 => 0u32..=tier.pick(300_000u32, 4_000_000u32),
+        1 => 0u32..=tier.pick(300_000u32, 5_000_000u32),
     ];
     prop_oneof![
         6 => n.clone().prop_map(Op::Fill),
